@@ -48,6 +48,7 @@ type HarnessSpec struct {
 	NoIfConv bool
 	Shards   int
 	shard    int
+	Witness  int
 	Bounds   string
 	Reach    []string
 	fn       *ssa.Function
@@ -169,6 +170,8 @@ func loadProgram(repo, verif string) (*Program, error) {
 							h.NoMerge = true
 						case "noifconv":
 							h.NoIfConv = true
+						case "witnesses":
+							h.Witness, _ = strconv.Atoi(arg)
 						case "shards":
 							h.Shards, _ = strconv.Atoi(arg)
 						case "bounds":
@@ -425,7 +428,11 @@ func runHarness(P *Program, h *HarnessSpec, opts RunOpts) (res *HarnessResult) {
 			}
 			continue
 		}
-		if len(res.Witnesses) < opts.Witnesses {
+		nw := opts.Witnesses
+		if h.Witness > 0 {
+			nw = h.Witness
+		}
+		if len(res.Witnesses) < nw {
 			w, ok := ex.witnessFor(o.st)
 			if os.Getenv("VERIF_DEBUG") != "" {
 				fmt.Fprintln(os.Stderr, "witness", h.Name, ok, w.Log)
